@@ -468,6 +468,33 @@ let run_ranges () =
       flush_line ()
     | _ -> flush_line ())
 
+(* where the sorted ranges come from: the model's hashed windows / node windows for the given token counts and
+   granularities, and the two boolean hypotheses of Join1Proof.candidates_from_nodes evaluated on the code's output *)
+let run_join1 () =
+  iter_lines (fun line ->
+    match String.split_on_char '|' line with
+    | [hd; ssums; tsums; ms] ->
+      let nz x = List.filter (fun x -> x <> "") (fields x) in
+      (match nz hd with
+       | [lens; gs; lent; gt] ->
+         let zi s = z_of_int (int_of_string s) in
+         let hr = Join1.hash_ranges (zi lens) (zi gs) and nr = Join1.node_ranges (zi lent) (zi gt) in
+         let sums l = List.map (fun x -> n_of_int (int_of_string x)) (nz l) in
+         let rec comb a b = match a, b with x :: a', y :: b' -> (x, y) :: comb a' b' | _, _ -> [] in
+         let srcn = comb (sums ssums) hr and tgtn = comb (sums tsums) nr in
+         let ms = List.filter_map (fun f -> match String.split_on_char ',' f with
+             | [a; b; c; d] -> Some { Tok1.ss = zi a; se = zi b; ts = zi c; te = zi d }
+             | _ -> None) (nz ms) in
+         pr "H"; List.iter (fun (a, b) -> pr " %d-%d" (int_of_z a) (int_of_z b)) hr;
+         pr " | N"; List.iter (fun (a, b) -> pr " %d-%d" (int_of_z a) (int_of_z b)) nr;
+         pr " | pairings=%d sorted=%d"
+           (if List.length (sums ssums) = List.length hr && List.length (sums tsums) = List.length nr
+               && List.for_all (fun m -> Join1.pairingb srcn tgtn m) ms then 1 else 0)
+           (if Join1.sorted_lexb ms then 1 else 0);
+         flush_line ()
+       | _ -> flush_line ())
+    | _ -> flush_line ())
+
 let run_span fix =
   iter_lines (fun line ->
     match String.split_on_char '|' line with
@@ -505,6 +532,7 @@ let () =
   | [| _; "span"; v |] -> run_span (v = "fixed")
   | [| _; "tok1"; dir; v |] -> run_tok1 dir (v = "fixed")
   | [| _; "ranges" |] -> run_ranges ()
+  | [| _; "join1" |] -> run_join1 ()
   | [| _; "tokwf"; dir |] -> run_tokwf dir
   | [| _; "normwf"; dir; uefile |] -> run_normwf dir uefile
   | [| _; "normhyp"; dir; uefile |] -> run_normhyp dir uefile
